@@ -79,6 +79,9 @@ func (prop) Generate(rng *core.Rand, tier string, emit func(string)) {
 	for c := 0; c < n/4; c++ {
 		genHTTP(rng.Fork(), emit)
 	}
+	for c := 0; c < n/8; c++ {
+		genMatcher(rng.Fork(), emit)
+	}
 	for c := 0; c < n; c++ {
 		var sb strings.Builder
 		np := rng.Intn(9)
@@ -203,6 +206,9 @@ func (prop) Run(line string) core.Outcome {
 	}
 	if len(f) == 8 && f[0] == "http" {
 		return runHTTP(line, f)
+	}
+	if len(f) == 7 && f[0] == "httpm" {
+		return runMatcher(line, f)
 	}
 	if len(f) != 4 {
 		return core.Outcome{Impl: "bad-op"}
